@@ -3,11 +3,13 @@ package main
 // Calls: builtins, trusted standard-library contracts, inlining, contract calls, defers.
 
 import (
-	"go/token"
 	"fmt"
-	"sort"
+	"go/ast"
+	"go/token"
 	"go/types"
 	"math/big"
+	"os"
+	"sort"
 	"strings"
 
 	"golang.org/x/tools/go/ssa"
@@ -905,6 +907,138 @@ func (f *frame) siteAsserts(x *ssa.Call) {
 	if !ok {
 		return
 	}
+	f.fireSite(site)
+}
+
+// stmtSites: `@ stmt <first line of the statement>#k` sites. The k-th statement (source order)
+// of the function whose first source line, trimmed, is the given text; the clauses fire in
+// front of the first instruction that belongs to it. Loops are refused (their condition is
+// not evaluated where the statement starts).
+func (f *frame) stmtSite(in ssa.Instruction) {
+	t := f.t
+	if f.parent != nil || !t.hasStmtSites {
+		return
+	}
+	if t.stmtSites == nil {
+		t.stmtSites = map[ssa.Instruction][]string{}
+		want := map[string]bool{}
+		add := func(site string) {
+			if strings.HasPrefix(site, "stmt ") || strings.HasPrefix(site, "after stmt ") {
+				want[site] = true
+			}
+		}
+		for _, a := range t.fc.Asserts {
+			add(a.Site)
+		}
+		for s := range t.fc.GhostAt {
+			add(s)
+		}
+		for _, d := range t.fc.GhostAtDefs {
+			add(d.Site)
+		}
+		syn := f.fn.Syntax()
+		if syn == nil {
+			return
+		}
+		fset := f.fn.Prog.Fset
+		file := fset.File(syn.Pos())
+		src, err := os.ReadFile(file.Name())
+		if err != nil {
+			fail("stmt site: %v", err)
+		}
+		type cand struct {
+			st   ast.Stmt
+			site string
+		}
+		var cands []cand
+		cnt := map[string]int{}
+		ast.Inspect(syn, func(n ast.Node) bool {
+			if _, ok := n.(*ast.FuncLit); ok && n != syn {
+				return false
+			}
+			st, ok := n.(ast.Stmt)
+			if !ok {
+				return true
+			}
+			switch st.(type) {
+			case *ast.BlockStmt, *ast.LabeledStmt, *ast.CaseClause, *ast.CommClause:
+				return true
+			}
+			off := file.Offset(st.Pos())
+			end := off
+			for end < len(src) && src[end] != '\n' {
+				end++
+			}
+			line := strings.TrimSpace(string(src[off:end]))
+			if i := strings.Index(line, "//"); i >= 0 {
+				line = strings.TrimSpace(line[:i])
+			}
+			cnt[line]++
+			site := fmt.Sprintf("stmt %s#%d", line, cnt[line])
+			if want[site] {
+				switch st.(type) {
+				case *ast.ForStmt, *ast.RangeStmt:
+					fail("stmt site %q is a loop statement", site)
+				}
+				cands = append(cands, cand{st, site})
+			}
+			if want["after "+site] {
+				switch st.(type) {
+				case *ast.AssignStmt, *ast.IncDecStmt, *ast.ExprStmt, *ast.DeclStmt:
+				default:
+					fail("site %q: `after` needs a simple statement", "after "+site)
+				}
+				cands = append(cands, cand{st, "after " + site})
+			}
+			return true
+		})
+		for _, c := range cands {
+			var first ssa.Instruction
+			after := strings.HasPrefix(c.site, "after ")
+		search:
+			for _, b := range f.fn.Blocks {
+				for i, in := range b.Instrs {
+					if p := in.Pos(); p.IsValid() && p >= c.st.Pos() && p < c.st.End() {
+						first = in
+						if after {
+							// `after stmt`: in front of the first instruction of the same block that follows the
+							// statement's last one (instructions without a position belong to what precedes them)
+							last := i
+							for k := i + 1; k < len(b.Instrs); k++ {
+								if q := b.Instrs[k].Pos(); q.IsValid() && q >= c.st.Pos() && q < c.st.End() {
+									last = k
+								}
+							}
+							k := last + 1
+							for k < len(b.Instrs)-1 && !b.Instrs[k].Pos().IsValid() {
+								k++
+							}
+							if k >= len(b.Instrs) {
+								k = len(b.Instrs) - 1
+							}
+							first = b.Instrs[k]
+						}
+						break search
+					}
+				}
+			}
+			if first != nil {
+				t.stmtSites[first] = append(t.stmtSites[first], c.site)
+			}
+		}
+	}
+	for _, site := range t.stmtSites[in] {
+		f.fireSite(site)
+	}
+}
+
+// fireSite: the ghost updates and assert / rely clauses bound to a site, in front of it.
+func (f *frame) fireSite(site string) {
+	t := f.t
+	if t.usedSites == nil {
+		t.usedSites = map[string]bool{}
+	}
+	t.usedSites[site] = true
 	if lvs, ok := t.fc.GhostAt[site]; ok {
 		// initial ghost state of an object this function allocated (definitional)
 		env := f.bodyEnv(false)
